@@ -1,40 +1,19 @@
 import ShkModel.Model.Template
 import ShkModel.Gen.ClauseRe
-/-! The clause regexps of `parsecfg.go` that are templates (see `Model/Template.lean`), each with its name, the
-regexp regenerated from the Go source (`Gen.*Re`) and its template.  That the two agree is theorem
-`C10.templates_are_the_regexps`, re-checked on every run.  Core only. -/
+/-! The clause regexps of the current Go source that are templates (see `Model/Template.lean`): read off the
+regenerated `Gen.all` by `templateOf`, so the table follows the source — a renamed regexp stays in it, a regexp
+edited out of the family leaves it, a new template regexp joins it.  Core only. -/
 namespace Shk.Tpl
 open Shk.Re
 
-/-- the regexp the current Go source declares under this name (`.empty` when there is none: then
-`templates_are_the_regexps` fails for that row only, and nothing else stops compiling) -/
-def byName (n : String) : Re := (Gen.all.lookup n).getD .empty
-
-def namedTemplates : List (String × Re × List Tok × Fin) := [
-  ("paramRe", byName "paramRe", [.lit ['p', 'a', 'r', 'a', 'm', 'e', 't', 'e', 'r'], .ws, .word 1 (some "name"), .ws, .lit ['d', 'e', 'f', 'a', 'u', 'l', 't', 's'], .ws, .lit ['t', 'o'], .ws], .rest 2 (some "val")),
-  ("interpretationRe", byName "interpretationRe", [.lit ['i', 'n', 't', 'e', 'r', 'p', 'r', 'e', 't', 'a', 't', 'i', 'o', 'n']], .eot),
-  ("audienceRe", byName "audienceRe", [.lit ['a', 'u', 'd', 'i', 'e', 'n', 'c', 'e']], .eot),
-  ("actorsRe", byName "actorsRe", [.lit ['c', 'a', 's', 't']], .eot),
-  ("scriptRe", byName "scriptRe", [.lit ['s', 'c', 'r', 'i', 'p', 't']], .eot),
-  ("watchVarRe", byName "watchVarRe", [.word 1 (some "name"), .ws, .lit ['w', 'a', 't', 'c', 'h', 'e', 's'], .ws, .word 2 (some "varname")], .wsEot),
-  ("measuresRe", byName "measuresRe", [.word 1 (some "name"), .ws, .lit ['m', 'e', 'a', 's', 'u', 'r', 'e', 's'], .ws], .rest 2 (some "ylabel")),
-  ("computesRe", byName "computesRe", [.word 1 (some "name"), .ws, .lit ['c', 'o', 'm', 'p', 'u', 't', 'e', 's'], .ws, .word 2 (some "var"), .ws, .lit ['a', 's'], .ws], .rest 3 (some "expr")),
-  ("expectsSameRe", byName "expectsSameRe", [.word 1 (some "name"), .ws, .lit ['e', 'x', 'p', 'e', 'c', 't', 's'], .ws, .lit ['l', 'i', 'k', 'e'], .ws], .rest 2 (some "target")),
-  ("noPlotRe", byName "noPlotRe", [.word 1 (some "name"), .ws, .lit ['o', 'n', 'l', 'y'], .ws, .lit ['h', 'e', 'l', 'p', 's']], .wsEot),
-  ("actionDefRe", byName "actionDefRe", [.lit [':'], .word 1 (some "actionname"), .ws], .rest 2 (some "cmd")),
-  ("spotlightDefRe", byName "spotlightDefRe", [.lit ['s', 'p', 'o', 't', 'l', 'i', 'g', 'h', 't'], .ws], .rest 1 (some "cmd")),
-  ("cleanupDefRe", byName "cleanupDefRe", [.lit ['c', 'l', 'e', 'a', 'n', 'u', 'p'], .ws], .rest 1 (some "cmd")),
-  ("parseDefRe", byName "parseDefRe", [.lit ['s', 'i', 'g', 'n', 'a', 'l'], .ws, .word 1 (some "name"), .ws, .word 2 (some "type"), .ws, .lit ['a', 't'], .ws], .rest 3 (some "re")),
-  ("tempoRe", byName "tempoRe", [.lit ['t', 'e', 'm', 'p', 'o'], .ws], .rest 1 (some "dur")),
-  ("repeatCountRe", byName "repeatCountRe", [.lit ['r', 'e', 'p', 'e', 'a', 't'], .ws, .word 1 (some "count"), .ws, .lit ['t', 'i', 'm', 'e', 's']], .eot),
-  ("repeatAlwaysRe", byName "repeatAlwaysRe", [.lit ['r', 'e', 'p', 'e', 'a', 't'], .ws, .lit ['a', 'l', 'w', 'a', 'y', 's']], .eot),
-  ("repeatTimeoutRe", byName "repeatTimeoutRe", [.lit ['r', 'e', 'p', 'e', 'a', 't'], .ws, .lit ['t', 'i', 'm', 'e'], .ws], .rest 1 (some "dur")),
-  ("editRe", byName "editRe", [.lit ['e', 'd', 'i', 't'], .ws], .rest 1 (some "editcmd")),
-  ("repeatRe", byName "repeatRe", [.lit ['r', 'e', 'p', 'e', 'a', 't'], .ws, .lit ['f', 'r', 'o', 'm'], .ws], .rest 1 (some "repeat"))
-]
+def namedTemplates : List (String × Re × List Tok × Fin) :=
+  Gen.all.filterMap fun e => (templateOf e.2).map fun t => (e.1, e.2, t.1, t.2)
 
 /-- the template clause regexps of the current source, each with its template -/
 def clauseTemplates : List (Re × List Tok × Fin) := namedTemplates.map (·.2)
+
+/-- the regexp the current Go source declares under this name -/
+def byName (n : String) : Re := (Gen.all.lookup n).getD .empty
 
 /-- the fields of a line according to the captures `c` of a match: the words in template order, and the rest -/
 def wordsFrom (s : List Char) (c : Captures) : List Tok → List (List Char)
